@@ -9,6 +9,7 @@
 #include <string>
 #include <iterator>
 #include "spdlog/spdlog.h"
+#include <nlohmann/json.hpp>
 
 #include <boost/uuid/uuid.hpp>
 #include <boost/program_options.hpp>
@@ -182,10 +183,11 @@ int main(int argc, char** argv) {
       }
     }
 
-    bool correctCacheName {false};
+    bool atLeastOneCorrectCacheName {false};
     //TODO Merge this and the preparations.cpp code
     for(std::string cacheName : cacheNames)
     {
+      bool correctCacheName {false};
       if (cacheName == "data_sources" || cacheName == "all")
       {
         correctCacheName = true;
@@ -251,22 +253,25 @@ int main(int argc, char** argv) {
         transitData.updateSchedules(customCacheDirectoryPath);
       }
 
-      //TODO This is incorrect if we have multiple name and the second one is wrong, correctCacheName is always true
       if (correctCacheName)
       {
+        atLeastOneCorrectCacheName = true;
         cacheNamesStr += cacheName;
         cacheNamesStr += ",";
       }
     }
 
-    //TODO do this only if we had at least one correct name
     //Reinit some data after the update
     // TODO Just the schedules???
-    if (cacheNames.size() > 0)
+    if (atLeastOneCorrectCacheName)
     {
       // Remove last ","
       cacheNamesStr.pop_back();
-      response = "{\"status\": \"success\", \"cache_names\": \"" + cacheNamesStr + "\", \"custom_cache_path\": \"" + customCacheDirectoryPath + "\"}";
+      nlohmann::json jsonResponse;
+      jsonResponse["status"] = "success";
+      jsonResponse["cache_names"] = cacheNamesStr;
+      jsonResponse["custom_cache_path"] = customCacheDirectoryPath;
+      response = jsonResponse.dump();
     }
     else
     {
